@@ -310,7 +310,78 @@ def validate_trace(ctx, module, cfg, trace_path, timeout=900, heap=None, extra_f
                              (trace_path, module, r.violated, r.out[-3000:]))
     ctx.events += done[0]
     ctx.traces += done[1]
+    if os.environ.get("VERIF_BINDING"):
+        base = len(re.findall(r'^<<"(?:VIOL|OBS|DRIFT)", ', r.out, re.M))
+        binding_selftest(ctx, module, cfg, trace_path, ef, timeout, heap, workers, deque, xss, base)
     return viols, done
+
+
+def _numeric_leaves(obj, path=()):
+    """Paths of the integer leaves of a JSON value (booleans excluded), depth first."""
+    if isinstance(obj, bool):
+        return
+    if isinstance(obj, int):
+        yield path
+    elif isinstance(obj, list):
+        for i, v in enumerate(obj):
+            yield from _numeric_leaves(v, path + (i,))
+    elif isinstance(obj, dict):
+        for k in sorted(obj):
+            yield from _numeric_leaves(obj[k], path + (k,))
+
+
+def binding_selftest(ctx, module, cfg, trace_path, ef, timeout, heap, workers, deque, xss, base=0):
+    """Binding self-test (VERIF_BINDING=1): the trace just validated is corrupted in ONE recorded number (one integer
+    leaf of one event, +1) and validated again; the trace spec must object to the copy (more VIOL / OBS lines than for the
+    original, or a failed run).  (event, leaf) pairs are drawn at random (seeded); up to 40 are tried, since a logged field
+    may be informative only.  The outcome goes into the notes and, via bin/bindingtest, into binding_selftest.json."""
+    import copy
+    import random as _random
+    events = read_ndjson(trace_path)
+    if len(events) > 6000:            # very long traces: the first scenarios are enough for this purpose
+        first = events[0].get("ev")
+        cut = max(i for i in range(1, 6000) if events[i].get("ev") == first)
+        events = events[:cut] if cut > 10 else events[:6000]
+        base = None                   # the truncated trace has its own baseline: measured below
+    rng = _random.Random(1234 + len(events))
+    pairs = []
+    for i, e in enumerate(events):
+        for pth in _numeric_leaves(e):
+            if pth and pth[0] not in ("scen", "ev", "i", "k", "line", "census", "ms"):
+                pairs.append((i, pth))
+    rng.shuffle(pairs)
+    tried, outcome = [], None
+
+    def run_on(evs, tag):
+        cp = ctx.path("binding_%s_%s.ndjson" % (module, tag))
+        write_ndjson(cp, evs)
+        ef2 = dict(ef)
+        ef2["trace.ndjson"] = cp
+        r = run_tlc(ctx, module, cfg, workers=workers, extra_files=ef2, timeout=timeout, heap=heap, dump_trace=False,
+                    deque=deque, xss=xss, stage="bind_%s_%s" % (module, tag))
+        ctx.states -= r.distinct
+        ctx.transitions -= r.generated
+        return r, len(re.findall(r'^<<"(?:VIOL|OBS|DRIFT)", ', r.out, re.M))
+
+    if base is None:
+        _, base = run_on(events, "base")
+    for (i, pth) in pairs[:40]:
+        ev2 = copy.deepcopy(events)
+        o = ev2[i]
+        for key in pth[:-1]:
+            o = o[key]
+        o[pth[-1]] = o[pth[-1]] + 1
+        r, nv = run_on(ev2, str(len(tried)))
+        desc = {"event": i + 1, "ev": events[i].get("ev"), "field": "/".join(map(str, pth)), "objections": nv - base, "tlc_ok": bool(r.ok)}
+        tried.append(desc)
+        if nv > base or not r.ok:
+            outcome = desc
+            break
+    res = {"module": module, "events": len(events), "rejected": outcome is not None, "by": outcome, "tried": len(tried)}
+    ctx.notes.setdefault("binding_selftest", []).append(res)
+    print("BINDING %s %s: %s" % (ctx.pid, module, json.dumps(res)))
+    if outcome is None:
+        raise MachineryError("binding self-test: %s accepted a trace corrupted in %d different recorded numbers: %s" % (module, len(tried), [t["ev"] + ":" + t["field"] for t in tried][:12]))
 
 
 # ------------------------------------------------------------------------------------------ findings / verdict
